@@ -130,7 +130,7 @@ def build(ctx, topo):
             nst = c.get("nsteps", 1)
             steps = [ctx.td(f"s_{n}{k}", lo_us=1) for k in range(nst)]
             comps[n] = HComp(n, ci, start, steps, inputs=ins[n], outputs=outs[n],
-                             initial_pull=c.get("init_pull", True))
+                             initial_pull=c.get("init_pull", True), out_deps=c.get("out_deps"))
         else:
             comps[n] = HPull(n, ins[n], outs[n])
     order = topo.get("order") or list(range(len(specs)))
@@ -265,7 +265,7 @@ class RunMonitor:
             return
         t = comp.next_time
         self.expected = {}
-        if "C02" in self.props or "C13" in self.props:
+        if "C02" in self.props or "C13" in self.props or "C20" in self.props:
             self._expect_requests(comp, t)
         if "C01" in self.props or "C02" in self.props:
             lag = spec_lagging(w, comp, t)
@@ -302,9 +302,8 @@ class RunMonitor:
                 if isinstance(ada, ITimeDelayAdapter):
                     tr = ada.with_delay(tr)
             src = w["comps"][l["src"]]
-            if isinstance(src, ITimeComponent):
-                self.expected.setdefault(id(src.outputs[l["out"]]), []).append(tr)
-            else:
+            self.expected.setdefault(id(src.outputs[l["out"]]), []).append(tr)
+            if not isinstance(src, ITimeComponent):
                 self._expect_requests(src, tr)
 
     def _chain_ok(self, cur, target, depth):
@@ -344,14 +343,25 @@ class RunMonitor:
         exp = getattr(self, "expected", {}).get(id(out))
         if exp:
             e0 = exp.pop(0)
-            lab = "C13:request-differs-from-shifted-time" if "C13" in self.props else \
-                "C02:request-differs-from-scheduled-time"
+            lab = "C13:request-differs-from-shifted-time" if "C13" in self.props else (
+                "C20:own-pull-differs-from-request" if "C20" in self.props and "C02" not in self.props
+                else "C02:request-differs-from-scheduled-time")
             ctx.check(ctx.eq(time, e0), lab, {"sig": "request", "out": owner.name})
         if "C01" in self.props and len(out.data) > 0:
             ctx.check(out.data[-1][0] >= time, "C01:request-beyond-newest-publication",
                       {"sig": "extrapolate", "out": owner.name})
             ctx.check(out.data[0][0] <= time, "C01:request-before-oldest-retained",
                       {"sig": "dropped", "out": owner.name})
+
+    def before_cb_get_data(self, spy, out, time, target):
+        """a pull-based output is asked: must be exactly the consumer's (shifted) request time"""
+        if self.in_update is None or "C20" not in self.props:
+            return
+        exp = getattr(self, "expected", {}).get(id(out))
+        if exp:
+            e0 = exp.pop(0)
+            self.ctx.check(self.ctx.eq(time, e0), "C20:provider-invoked-for-other-time", {"sig": "provider"})
+            self.ctx.cover("provider-asked")
 
     def after_finalize(self, spy, ada, a, k, r, e):
         self.finalized[id(ada)] = self.finalized.get(id(ada), 0) + 1
@@ -395,6 +405,7 @@ def h_run(ctx):
                  after=mon.after_update_recursive)
         spy.wrap(fm.Component, "update", before=mon.before_comp_update)
         spy.wrap(Output, "get_data", before=mon.before_get_data)
+        spy.wrap(CallbackOutput, "get_data", before=mon.before_cb_get_data)
         spy.wrap(Adapter, "finalize", after=mon.after_finalize)
         try:
             composition.run(end_time=end)
@@ -464,6 +475,85 @@ def _check_requests(ctx, w, mon, props):
             for (_o, t, used) in c.requests:
                 for u in used:
                     ctx.check(ctx.eq(u, t), "C20:pull-based-own-pull-time")
+
+
+# ----------------------------------------------------------------------------
+# C05: order independence (product harness)
+# ----------------------------------------------------------------------------
+def _one_run(ctx, topo, end_us, max_updates, hard_cap):
+    w = build(ctx, topo)
+    count = [0]
+
+    def on_update(comp):
+        count[0] += 1
+        if count[0] > max_updates:
+            if hard_cap:
+                raise _TooMany()
+            ctx.cut("max-updates")
+
+    for c in w["comps"].values():
+        if isinstance(c, HComp):
+            c.on_update = on_update
+    end = w["base"] + end_us
+    outcome = "ok"
+    try:
+        w["composition"].run(end_time=end)
+    except _TooMany:
+        outcome = "more-updates"
+    except (symx.PathAbort, symx.SymbolicLeak, symx.HarnessError):
+        raise
+    except Exception as ex:  # pylint: disable=broad-except
+        outcome = type(ex).__name__
+    return w, outcome
+
+
+class _TooMany(Exception):
+    pass
+
+
+def h_order(ctx):
+    """Same scenario in reference order and under a permutation of listing / linking order."""
+    p = ctx.params
+    topo = p["topo"]
+    hlib.reset_finam_state()
+    # end strictly after the composition start: with end <= start run() still performs its one
+    # unconditional update of the first least-advanced component, a degenerate case outside C05's domain
+    e = ctx.td("e", lo_us=1)
+    ref, o_ref = _one_run(ctx, topo, e, p["max_updates"], False)
+    if p.get("delay_sum_ge_steps"):
+        pass
+    var = dict(topo)
+    var["order"] = p["order"]
+    var["link_order"] = p["link_order"]
+    hlib.reset_finam_state()
+    alt, o_alt = _one_run(ctx, var, e, p["max_updates"] + 2, True)
+    ctx.log("outcomes", [o_ref, o_alt])
+    ctx.cover("ref:" + ("ok" if o_ref == "ok" else "error"))
+    sig = f"order={p['order']},links={p['link_order']}"
+    if o_ref != o_alt:
+        ctx.fail("outcome-depends-on-order", {"sig": sig, "ref": o_ref, "alt": o_alt})
+        return
+    if o_ref != "ok":
+        return
+    for n, c in ref["comps"].items():
+        d = alt["comps"][n]
+        if isinstance(c, ITimeComponent):
+            ctx.check(ctx.eq(c.time, d.time), "final-time-depends-on-order", {"sig": sig, "comp": n})
+        for iname, inp in c.inputs.items():
+            i2 = d.inputs[iname]
+            same = (inp.info == i2.info)
+            ctx.check(bool(same), "metadata-depends-on-order", {"sig": sig})
+            if inp.info.time is not None or i2.info.time is not None:
+                ctx.check(ctx.eq(inp.info.time, i2.info.time), "metadata-time-depends-on-order", {"sig": sig})
+        if isinstance(c, HComp):
+            if len(c.received) != len(d.received):
+                ctx.fail("received-series-length-depends-on-order", {"sig": sig, "comp": n})
+                continue
+            for (k1, n1, t1, v1), (k2, n2, t2, v2) in zip(c.received, d.received):
+                ctx.check(k1 == k2 and n1 == n2, "received-series-order")
+                ctx.check(ctx.eq(t1, t2), "request-time-depends-on-order", {"sig": sig, "comp": n})
+                ctx.check(ctx.eq(hlib.scalar_of(v1), hlib.scalar_of(v2)),
+                          "received-value-depends-on-order", {"sig": sig, "comp": n})
 
 
 # ----------------------------------------------------------------------------
